@@ -51,7 +51,7 @@ def gen_cases(tier, seed):
     for i in range(60 if q else 900):
         d = rng.randrange(1, N)
         for m in VMUTS:
-            if q and m not in ("none", "pk_zero_prepended", "sig_zero_before_s") and rng.random() < 0.55:
+            if q and m not in ("none", "pk_zero_prepended", "sig_zero_before_s", "sig_appended") and rng.random() < 0.55:
                 continue
             yield "verify", {"d": hex(d), "msg": rand_bytes(rng, rng.choice([0, 32, 32, 77])).hex(), "aux": rand_bytes(rng, 32).hex(),
                              "mut": m, "bit": rng.randrange(1 << 16)}
@@ -320,7 +320,7 @@ def run_case(kind, params, ctx):
         elif mut == "sig_zero_before_s":
             sig = sig[:32] + b"\x00" + sig[32:]
         elif mut == "sig_appended":
-            sig = sig + bytes([bit & 0xFF])
+            sig = sig + bytes([[0x00, 0x01, 0x02, 0x03, 0x81, 0x82, 0x83, 0xFF, bit & 0xFF][bit % 9]])
         elif mut == "sig_last_removed":
             sig = sig[:-1]
         elif mut == "sig_empty":
